@@ -301,7 +301,7 @@ func (ts *tokenScanner) Cur() Token {
 		tok.Type = IDENT
 		// strip quotes
 		tok.Text = ts.s.TokenText()
-		tok.Text = tok.Text[1 : len(tok.Text)-1]
+		tok.Text = stripQuotes(tok.Text)
 	default:
 		tok.Text = ts.s.TokenText()
 		if kw, isKw := keywords[strings.ToUpper(ts.s.TokenText())]; isKw {
@@ -322,11 +322,20 @@ func (ts *tokenScanner) Cur() Token {
 			tok.Type = STR
 			if ts.cur == String {
 				// strip quotes
-				tok.Text = tok.Text[1 : len(tok.Text)-1]
+				tok.Text = stripQuotes(tok.Text)
 			}
 		}
 	}
 	return tok
+}
+
+// stripQuotes removes the enclosing quotes of a literal. An unterminated
+// literal at the end of the input can be a lone quote character.
+func stripQuotes(text string) string {
+	if len(text) < 2 {
+		return ""
+	}
+	return text[1 : len(text)-1]
 }
 
 func (ts *tokenScanner) Next() bool {
